@@ -21,8 +21,10 @@ pub struct ExUtf8Error(core::str::Utf8Error);
 #[verifier::external_body]
 pub struct ExParseIntError(core::num::ParseIntError);
 
+/// UTF-8 encoding of a character sequence (vstd views a str / String as Seq<char>)
+pub uninterp spec fn utf8_bytes(c: Seq<char>) -> Seq<u8>;
 /// bytes of a `str`
-pub uninterp spec fn str_bytes(s: &str) -> Seq<u8>;
+pub open spec fn str_bytes(s: &str) -> Seq<u8> { utf8_bytes(s@) }
 pub uninterp spec fn is_utf8(b: Seq<u8>) -> bool;
 
 pub open spec fn is_ws(c: u8) -> bool { c == 32 || (9 <= c <= 13) }
@@ -140,8 +142,8 @@ pub broadcast proof fn axiom_parse_u64(b: Seq<u8>)
 
 /// link between vstd's view of a str (Seq<char>) and its UTF-8 bytes: empty iff empty
 #[verifier::external_body]
-pub broadcast proof fn axiom_str_bytes_empty(s: &str)
-    ensures (#[trigger] str_bytes(s)).len() == 0 <==> s@.len() == 0
+pub broadcast proof fn axiom_str_bytes_empty(c: Seq<char>)
+    ensures (#[trigger] utf8_bytes(c)).len() == 0 <==> c.len() == 0
 {}
 
 /// N9: `s.as_bytes()` in terms of this preamble's byte view of a str
